@@ -30,11 +30,20 @@ type Client struct {
 	Dereg     []string
 	// FailRegister, when set, makes Register of that vchannel fail.
 	FailRegister func(vchannel string) error
+	// HoldRegister, when set, is called (without the client lock) before a registration is recorded; it may block to
+	// model a slow message-queue subscription.
+	HoldRegister func(vchannel string)
 }
 
 func NewClient() *Client { return &Client{streams: map[string]*Stream{}} }
 
 func (c *Client) Register(ctx context.Context, cfg *msgdispatcher.StreamConfig) (<-chan *msgstream.MsgPack, error) {
+	c.mu.Lock()
+	hold := c.HoldRegister
+	c.mu.Unlock()
+	if hold != nil {
+		hold(cfg.VChannel)
+	}
 	c.mu.Lock()
 	defer c.mu.Unlock()
 	if c.FailRegister != nil {
